@@ -395,6 +395,33 @@ def run(world, rep, tier, only=None):
                 bad.append(x)
     rep.ob("C13.a", "lib/ext2fs:*:mmp_fd never written", not bad, "no write(2)-family call on fs->mmp_fd: %s" % [b.where() for b in bad])
 
+    # ---------------------------------------------------------------- C13.k the MMP block is written only through a handle opened for writing
+    # ext2fs_mmp_write() itself has no test of EXT2_FLAG_RW, and the status queries (dumpe2fs -m, e2mmpstatus) call
+    # ext2fs_mmp_start() on a read-only handle: every call of the writer in mmp.c lies behind a test of EXT2_FLAG_RW -
+    # in the function, or in each of its callers in the file.
+    MMPF = "lib/ext2fs/mmp.c"
+    MMP_CREATE = {"ext2fs_mmp_init": "creates the MMP block: called by mke2fs and tune2fs -O mmp on the handle they format or tune"}
+
+    def rw_tested(fn_, node_, depth=0):
+        g_ = [(t, resolve_local(fn_, a)) for t, a in control_lits(fn_, node_)]
+        if has_bit_guard(g_, "EXT2_FLAG_RW", True, "flags"):
+            return True, "behind fs->flags & EXT2_FLAG_RW in %s" % fn_.name
+        if fn_.name in MMP_CREATE:
+            return True, MMP_CREATE[fn_.name]
+        cs_ = [(cf, cn) for (cf, cn) in lib.callers().get(fn_.key, []) if cf.file == MMPF]
+        if depth >= 2 or not cs_:
+            return False, "no test of EXT2_FLAG_RW on the way in %s" % fn_.name
+        rs_ = [rw_tested(cf, cn, depth + 1) for (cf, cn) in cs_]
+        bad_ = [w_ for (ok_, w_) in rs_ if not ok_]
+        return (not bad_), (bad_[0] if bad_ else "; ".join(w_ for (_o, w_) in rs_)[:200])
+    n_mw = 0
+    for fn_ in lib.fns_in_file(MMPF):
+        for i_, c_ in enumerate(calls_to(fn_, "ext2fs_mmp_write")):
+            n_mw += 1
+            ok_, why_ = rw_tested(fn_, c_)
+            rep.ob("C13.k", site(fn_, "ext2fs_mmp_write#%d" % i_), ok_, "MMP block written at %s: %s" % (c_.where(), why_))
+    rep.floor("C13.k calls of ext2fs_mmp_write in mmp.c", n_mw, 4)
+
     # ---------------------------------------------------------------- C13.f stacked I/O managers keep the caller's mode
     # undo_io and test_io sit between ext2fs_open2 and the unix manager: whatever mode ext2fs_open2 derived must reach
     # the backing manager's open of the *device* unchanged; IO_FLAG_RW may be spelled out only for a private file.
